@@ -194,7 +194,7 @@ PROPS = {
                 "thread; handler absent / True / False / None; pool 1-3 with pool tasks in flight; random schedules; non-trivial = distinct scenario",
     },
     "C04": {
-        "lean": ["AriVerif.Props.C04", "AriVerif.Props.C04S", "AriVerif.Conc.MetaProj", "AriVerif.Props.SkelMetaPool", "AriVerif.Props.SkelReader"],
+        "lean": ["AriVerif.Props.C04", "AriVerif.Props.C04S", "AriVerif.Conc.MetaProj", "AriVerif.Props.SkelMetaPool", "AriVerif.Props.SkelReader", "AriVerif.Conc.Progress"],
         "gen": ["Skeleton"],
         "streams": [s_conc.meta_stream(["C04"], "meta-cosim"), s_wire.stream_meta, s_conc.meta_fine_stream(["C04"])],
         "trusted": [KERNEL, HARNESS, "the scheduler shim (harness/shim.py): Lock/RLock, Queue, Event, Thread, ThreadPoolExecutor (FIFO work queue, <= n running), scripted socket, virtual clock; line-level preemption via sys.settrace in the fine-grained streams",
@@ -210,7 +210,7 @@ PROPS = {
                 "library threads and state after every chunk; non-trivial = scenario with more than one request or concurrent adapter calls",
     },
     "C18": {
-        "lean": ["AriVerif.Props.C18", "AriVerif.Props.C10S", "AriVerif.Props.SkelSub", "AriVerif.Props.SkelMetaPool"],
+        "lean": ["AriVerif.Props.C18", "AriVerif.Props.C10S", "AriVerif.Props.SkelSub", "AriVerif.Props.SkelMetaPool", "AriVerif.Conc.Progress"],
         "gen": ["Pool", "Skeleton"],
         "streams": [s_conc.meta_stream(["C18"], "meta-cosim"), s_conc.data_stream(["C18", "C02"], "data-cosim-threads"), s_init.stream_pool],
         "trusted": [KERNEL, HARNESS, "the scheduler shim (harness/shim.py): Lock/RLock, Queue, Event, Thread, ThreadPoolExecutor (FIFO work queue, <= n running), scripted socket, virtual clock; line-level preemption via sys.settrace in the fine-grained streams",
@@ -222,7 +222,7 @@ PROPS = {
                 "constructor grid thread_pool_size in {None, -7..1000} x cpu_count in {1, 2, 8, 64, NotImplementedError} on both kinds",
     },
     "C01": {
-        "lean": ["AriVerif.Props.C01", "AriVerif.Conc.DataProj", "AriVerif.Props.SkelSub", "AriVerif.Props.SkelReader"],
+        "lean": ["AriVerif.Props.C01", "AriVerif.Conc.DataProj", "AriVerif.Props.SkelSub", "AriVerif.Props.SkelReader", "AriVerif.Conc.Progress"],
         "gen": ["Skeleton"],
         "streams": [s_conc.data_stream(["C01"], "data-cosim"), s_conc.data_fine_stream(["C01"])],
         "trusted": [KERNEL, HARNESS, "the scheduler shim (harness/shim.py): Lock/RLock, Queue, Event, Thread, ThreadPoolExecutor (FIFO work queue, <= n running), scripted socket, virtual clock; line-level preemption via sys.settrace in the fine-grained streams",
